@@ -398,11 +398,14 @@ theorem tie_renameSkeleton : renameSkeleton =
    "return",
    "}",
    "call accepted.SetParent",
+   "if newdirf.inode == olddirf.inode && newname == oldname {",
+   "return",
+   "}",
    "return",
    "}",
    "return"] := rfl
 
-/-- Rename: the needLock loop bounds and the locked[oldinode] check that the moved inode is not one of the locked ancestors -/
+/-- Rename: the needLock loop bounds, the locked[oldinode] check that the moved inode is not one of the locked ancestors, and (fix 100856b) the renamed-onto-itself test -/
 theorem tie_renameConds : renameConds =
   ["if oldname == \"\" || oldname == \".\" || oldname == \"..\"",
    "if err != nil",
@@ -417,7 +420,8 @@ theorem tie_renameConds : renameConds =
    "if locked[oldinode]",
    "if oldinode.FS() != cfs && newdirf.inode != olddirf.inode",
    "if existing != nil && existing.IsDir()",
-   "if err != nil"] := rfl
+   "if err != nil",
+   "if newdirf.inode == olddirf.inode && newname == oldname"] := rfl
 
 /-- dirnode.sortedNames: children in name order (kids d of the lock model, sortedFiles of C08) -/
 theorem tie_sortedNamesText : sortedNamesText = "{ names := make([]string, 0, len(dn.inodes)) for name := range dn.inodes { names = append(names, name) } sort.Strings(names) return names }" := rfl
